@@ -106,6 +106,7 @@ Refused(b) == \/ IndexRefused(b)
               \/ \E i \in 1..Len(b.exs) : ~RespHdrOk(b.exs[i])
               \/ b.hasmanifest /\ b.ver # "b1"
               \/ b.ver = "b1" /\ ~b.hasprimary          \* b1 carries the primary URL as a positional item of the top-level array
+              \/ \E i \in 1..Len(b.exs) : ~Utf8Valid(b.exs[i].url)    \* index keys are CBOR text strings
 Sections(b) == << [name |-> S_index, body |-> IndexSection(b)] >>
                \o (IF b.ver = "b2" /\ b.hasprimary THEN << [name |-> S_primary, body |-> EncText(b.primary)] >> ELSE <<>>)
                \o (IF b.hasmanifest THEN << [name |-> S_manifest, body |-> EncText(b.manifest)] >> ELSE <<>>)
